@@ -454,7 +454,16 @@ func runC16(c *Ctx) []Obligation {
 		Row{Prop: P, ID: "VT.lookup-key-is-tx-hash", Fn: fnVT,
 			Target: CallTo(`TxIndexer\.Get\(`).Except(`^` + aTxIdxGet + `$`), Why: "the duplicate lookup uses the hash the indexer files executed transactions under (Tx.Hash of the raw bytes)"},
 	)
+	// the in-block duplicate test only works if every delivered transaction is entered into the cache, and the
+	// ante handler that consults the indexer is the one installed
+	rows = append(rows,
+		Row{Prop: P, ID: "DeliverTx.first-sight-is-recorded", Fn: fnDeliv,
+			Assume:  []Lit{F(`^app\.transactionCache\[baseapp\.TxCacheKey\(()?req\.Tx, \d+\)\]#1$`)},
+			Barrier: []string{`mapset:^app\.transactionCache\[baseapp\.TxCacheKey\(req\.Tx, 2\)\] = `}, Target: CallTo(`\(\*baseapp\.BaseApp\)\.runTx\(`), TargetMustExist: true,
+			Why: "a transaction not yet seen in this block is entered in the block's cache before it is executed"},
+	)
 	out := c.Rows(rows)
+	out = append(out, c.wiringRow(P, "wiring.ante-handler-installed", `^\(\*baseapp\.BaseApp\)\.SetAnteHandler\(.*, x/auth\.NewAnteHandler\(.*\.accountKeeper\)\)$`, "the base app runs the auth module's ante handler (which holds the duplicate lookup)"))
 	out = append(out, c.replayKeyBytes(P), c.canonicalDecode(P))
 	out = append(out, indexerSkipRows(c, P)...)
 	return out
